@@ -11,8 +11,8 @@ namespace {
 
 static uint64_t ncases(Ctx& c) { return (uint64_t)c.param_int("inputs", c.tier == "thorough" ? 600000 : 12000); }
 
-enum Call { C_PARSE, C_ADDBASE, C_REMOVEBASE, C_NORMALIZE, C_MAKEOWNER, C_DISSECT, C_COMPOSE, C_NCALLS };
-static const char* const CALLNAME[] = {"parse", "addbase", "removebase", "normalize", "makeowner", "dissect", "compose"};
+enum Call { C_PARSE, C_ADDBASE, C_REMOVEBASE, C_NORMALIZE, C_MAKEOWNER, C_DISSECT, C_COMPOSE, C_INPLACE_ON_RESULT, C_NCALLS };
+static const char* const CALLNAME[] = {"parse", "addbase", "removebase", "normalize", "makeowner", "dissect", "compose", "inplace-on-result"};
 
 struct Plan { Call call; Str a, b; unsigned mask = 0; int flag = 0; bool owned = false; bool dflt = false; QItems items; };
 
@@ -118,6 +118,21 @@ template <class X> struct Runner {
             }
             { LibScope ls; if (p.dflt) X::FreeUriMembers(&u); else X::FreeUriMembersMm(&u, ctl.mm()); }
             verdict(); return true; }
+        case C_INPLACE_ON_RESULT: {
+            // make-owner / normalise applied to an object that resolution or reference creation produced (its nodes were built by other
+            // routines than the parser's, its text lives in its inputs): flag bit 2 picks the producer, bit 1 its option, mask 0 = make-owner
+            if (A.parse(p.a, &inputsLedger) != URI_SUCCESS || B.parse(p.b, &inputsLedger) != URI_SUCCESS) return false;
+            Uri d; memset(&d, 0xEE, sizeof d); int prc;
+            { LibScope ls; prc = (p.flag & 2) ? (p.dflt ? X::RemoveBaseUri(&d, &A.u, &B.u, p.flag & 1) : X::RemoveBaseUriMm(&d, &A.u, &B.u, p.flag & 1, ctl.mm()))
+                                              : (p.dflt ? X::AddBaseUriEx(&d, &A.u, &B.u, (UriResolutionOptions)(p.flag & 1)) : X::AddBaseUriExMm(&d, &A.u, &B.u, (UriResolutionOptions)(p.flag & 1), ctl.mm())); }
+            if (prc != URI_SUCCESS) return false;
+            Str sa = deep_snapshot<X>(A.u), sb = deep_snapshot<X>(B.u);
+            ctl.arm(k, from);
+            { LibScope ls; if (p.mask) rc = p.dflt ? X::NormalizeSyntaxEx(&d, p.mask) : X::NormalizeSyntaxExMm(&d, p.mask, ctl.mm()); else rc = p.dflt ? X::MakeOwner(&d) : X::MakeOwnerMm(&d, ctl.mm()); }
+            after("free members");
+            if (deep_snapshot<X>(A.u) != sa || deep_snapshot<X>(B.u) != sb) { c->violation("C14", fmt("fault/%s/%s/const-input-modified", X::tag(), CALLNAME[p.call]), what); c->violation("C12", fmt("fault/%s/%s/const-input-modified", X::tag(), CALLNAME[p.call]), what); }
+            { LibScope ls; if (p.dflt) X::FreeUriMembers(&d); else X::FreeUriMembersMm(&d, ctl.mm()); }
+            verdict(); return true; }
         case C_DISSECT: {
             typename X::S w = widen<X>(p.a); QList* list = (QList*)(uintptr_t)0x10; int count = -5;
             ctl.arm(k, from);
@@ -183,9 +198,14 @@ static void run_case(Ctx& c, uint64_t idx) {
         // shapes that need the owned '.' guard segment or the trailing empty segment after dot removal
         if (r.chance(1, 3)) { static const char* sh[] = {"a/../b:c", "./b:c/d", "/a/..//b", "s:/x/..//y/z", "a/..//b", "//h/a/b/..", "/a/b/c/../..", "x/y/..", "s:a/b/../..", "HTTP://U%41@H%41/%41/./%2e/..?%41#%41", "//[V1.AB]/a/..", "a/b/c/d/e/../../../../.."}; p.a = sh[r.below(12)]; p.mask = r.coin() ? 63u : 8u; } break;
     case C_MAKEOWNER: p.a = valid_uri(r, o); break;
+    case C_INPLACE_ON_RESULT: { p.flag = (int)r.below(4); p.mask = r.coin() ? 0u : (r.coin() ? 63u : r.below(64));
+        if (p.flag & 2) { o.scheme = 1; p.a = valid_uri(r, o); p.b = r.coin() ? gen_abs_base(r) : mutate(r, p.a, 1); } else { p.a = valid_uri(r, o); p.b = gen_abs_base(r); }
+        size_t e; if (!dfa_uriref(p.b, &e)) p.b = "s://h/a/b/c"; } break;
     case C_DISSECT: { int n = r.range(0, 6); for (int i = 0; i < n; i++) { if (i) p.a += '&'; p.a += gen_string(r, 6); if (r.coin()) { p.a += '='; p.a += gen_string(r, 6); } } for (auto& ch : p.a) if (ch == 0) ch = 'x'; p.flag = (int)r.below(2); p.mask = r.below(4); } break;
     default: { int n = r.range(1, 5); for (int i = 0; i < n; i++) { QItem it; it.key = gen_string(r, 6); it.hasValue = r.coin(); it.value = gen_string(r, 6); p.items.push_back(it); p.a += it.key + "=" + it.value + "&"; } p.flag = (int)r.below(4); } break;
     }
+    // now and then one component made of 16 .. 100 decodable triplets (a copy that shrinks a lot when repaired)
+    if ((p.call == C_NORMALIZE || p.call == C_MAKEOWNER) && r.chance(1, 40)) { Str t; int n = r.range(16, 100); for (int i = 0; i < n; i++) t += r.chance(1, 8) ? "%2F" : (r.coin() ? "%41" : "%7e"); static const char* const W[] = {"s://h/p?", "s://h/", "s://u", "s://", "s://h/p#"}; int w = (int)r.below(5); p.a = Str(W[w]) + t + (w == 2 ? "@h/p" : w == 3 ? "/p" : ""); if (p.call == C_NORMALIZE) p.mask = 63u; }
     if (idx % 3 == 1) { Runner<ApiW> w; w.run(c, p); } else { Runner<ApiA> a; a.run(c, p); }
     if (idx % 700 == 5) c.sample(CALLNAME[p.call], esc(p.a) + (p.b.empty() ? "" : " | " + esc(p.b)) + fmt(" mask=0x%x flag=%d", p.mask, p.flag));
 }
